@@ -2304,6 +2304,32 @@ def exhaustion_escapes(ctx, b, depth=0):
                 if dr:
                     drains.add(bb)
                     continue
+                # ... or it drains the stream for its effect (`extend_with_kept(&mut collected, iter.values(), ..)`): a draining
+                # terminal over a chain rooted at the parameter that received the stream lies on every path to its return
+                rc = ctx.run(cal.name)
+                ccfg = ctx.cfg(cal)
+                pnames = [cal.local_name(l) for l in cal.arg_locals()]
+                handed = False
+                for i_, a_ in enumerate(c['args']):
+                    if i_ >= len(pnames) or not pnames[i_] or a_ is None:
+                        continue
+                    sn_, root_ = I.spine(I.normalize(a_))
+                    if not source_stream_root(I, root_) or any(x in ITER_CARD_CHANGING for x in sn_):
+                        continue
+                    dbs = set()
+                    for cbb, cc in rc.call_sites():
+                        m2 = method(cc['t'])
+                        if m2 in DRAIN_METHODS and (decl(cc['t']).startswith(ITER) or decl(cc['t']).endswith('Extend::extend')):
+                            ch2 = cc['args'][1] if m2 == 'extend' and len(cc['args']) > 1 else cc['args'][0]
+                            n2, root2 = I.spine(I.normalize(ch2))
+                            if root2 == P(pnames[i_]) and not any(x in ITER_CARD_CHANGING for x in n2):
+                                dbs.add(cbb)
+                    if dbs and not [x for x in ccfg.returns if x in ccfg.reach(0, avoid=dbs)]:
+                        handed = True
+                        break
+                if handed:
+                    drains.add(bb)
+                    continue
             # a helper that receives the shared iterator and always runs it to exhaustion
             takes_iter = any('ConcurrentIter' in cal.locals[l]['ty'] or cal.locals[l]['head'].startswith(('ref:param:I', 'param:I')) for l in cal.arg_locals())
             if takes_iter and cal.name not in ctx.slots.tasks and ctx.cfg(cal).loops():
@@ -2423,9 +2449,15 @@ def c02_exhaust(ctx):
                         continue
                     # returned on a path on which this very value was found to be Some (`if result.is_some() { .. return result }`)
                     known_some = False
+                    from .rules_flow import norm_bool
                     for pt, f in pc:
                         if pt == ('discr', alt) and f == ('eq', 1):
                             known_some = True
+                        # any spelling of the test: `is_none() == false`, `!is_none()`, `is_some() != false` ..
+                        kind, arg = norm_bool(pt)
+                        if kind in ('is_some', 'is_none') and arg in (alt, ('ref', alt)) and lin.fact_truth(f) is not None:
+                            if (kind == 'is_some') == lin.fact_truth(f):
+                                known_some = True
                         if pt[0] == 'call' and tcallee(pt) == 'std::option::Option::is_some' and pt[2] and pt[2][0] in (alt, ('ref', alt)) and lin.fact_truth(f) is True:
                             known_some = True
                         if pt[0] == 'call' and tcallee(pt) == 'std::option::Option::is_none' and pt[2] and pt[2][0] in (alt, ('ref', alt)) and lin.fact_truth(f) is False:
@@ -3224,6 +3256,19 @@ def c05_fallible(ctx):
                     ret = ('call', 'std::option::Option::is_some', (P('self'),))
                     base = P('self')
         ok = ret is not None and ret[0] == 'call' and tcallee(ret) in (OKTEST if m == 'has_value' else OKVAL) and base == P('self')
+        if not ok and m == 'has_value':
+            # a hand-written discriminant test (`matches!(self, Some(_))`, `match self { Ok(_) => true, Err(_) => false }`): decided by
+            # re-executing the body with the variant of `self` fixed - true for the payload-carrying variant, false for the other
+            ty = b.locals[1]['ty'] if 1 in b.locals else ''
+            payload_variant = 1 if 'Option<' in ty else (0 if 'Result<' in ty else None)
+            if payload_variant is not None:
+                got = {}
+                for v in (0, 1):
+                    seeds_ = {'discr': {t_str(P('self')): v, t_str(('deref', P('self'))): v}, 'key': ('C05-FALLIBLE', b.name, v)}
+                    rv = ctx.opa.run(b.name, seeds=seeds_).ret
+                    got[v] = rv[1] if rv is not None and rv[0] == 'const' else None
+                if got.get(payload_variant) in (1, True) and got.get(1 - payload_variant) in (0, False) and got.get(1 - payload_variant) is not None:
+                    ok = True
         out.inst(key, ok, t_str(ret)[:100], sample={'impl': key_of(b), 'returns': t_str(ret)[:120]})
         if not ok:
             out.fail(key, '%s returns %s: %s' % (key_of(b), t_str(ret)[:100], 'has_value must be is_some / is_ok of self' if m == 'has_value' else 'value must be the unwrap of self'), b.where())
@@ -4032,6 +4077,22 @@ def c04_chain(ctx):
                 if I.normalize(c['args'][1]) == ('const', 0) and got in (('bin', 'Add', ACC, P('$x')), ('bin', 'Add', P('$x'), ACC)) and \
                         all(a[0] == 'call' and is_iter_method(a, ('count',)) for a in alternatives(e)):
                     continue
+                # fold(0, |acc, chunk| acc + <count over the chunk>) over the stream of pulled chunks: `.map(<count>).sum()` spelled as a fold
+                if I.normalize(c['args'][1]) == ('const', 0) and got is not None and got[0] == 'bin' and got[1] == 'Add' and ACC in (got[2], got[3]):
+                    other = got[3] if got[2] == ACC else got[2]
+                    if other is not None and other[0] == 'call' and other[1] in F.bodies and not ctx.cfg(F.bodies[other[1]]).loops():
+                        other = I.apply(('fn', other[1]), list(other[2]))       # a loop-free crate helper that spells the count
+                    other = I.normalize(other)
+                    if ACC not in set(subterms(other)) and other[0] == 'call' and is_iter_method(other, ('count',)) and other[2]:
+                        _, root_o = I.spine(I.normalize(other[2][0]))
+                        names_s, root_s = I.spine(I.normalize(c['args'][0]))
+                        if root_o == P('$x') and not names_s and root_s is not None and root_s[0] == 'call' and tcallee(root_s).endswith('iter::from_fn'):
+                            n += 1
+                            ch_o = other[2][0]
+                            okf_ = ch_o[0] == 'call' and is_iter_method(ch_o, ('filter',)) and (ch_o[2][1] in filters)
+                            out.inst('C04-CHAIN/%s/fold-count' % key_of(b), okf_, 'fold of per-chunk counts')
+                            if okf_:
+                                continue
             if m in ITER_SKIPPING or (m in ITER_EXHAUSTIVE and m != 'count') or m in ITER_CARD_CHANGING:
                 n += 1
                 out.inst('C04-CHAIN/%s/%s' % (key_of(b), m), False, m)
@@ -4054,7 +4115,7 @@ def c04_chain(ctx):
                 out.inst(key, okf, 'count over %s %s' % (names, why), sample={'kernel': key_of(b), 'chain': names})
                 if not okf:
                     out.fail(key, '%s counts a chain that does not hand on exactly the elements the user filter accepts (%s): %s' % (key_of(b), why or 'last adaptor is not `filter(<user filter>)`', names[:3]), b.where(c['line']))
-    out.floor('count_chains', n, 3 if not ctx.fixture else 0)
+    out.floor('count_chains', n, 1 if not ctx.fixture else 0)
     return out
 
 
